@@ -4,7 +4,8 @@ package main
 // a YAML configuration is loaded by run.NewLoaderFromConfigFile; obykeyset.Config.StartOrchestrator builds real
 // pipelines with obase.PrepareSequentialPipeline (transform worker, fluentd serializer and chunk maker, hybrid
 // buffer); records are fed through a real sink. The chunks are observed at the consumer (NewConsumerOverride):
-// tag inside the chunk, key fields of every record in it, and the key set of the pipeline that delivers it.
+// tag inside the chunk, key fields of every record in it, the pipeline that delivers it (the consumer object itself is
+// the handle: one consumer per pipeline and output) and the key_* labels of that pipeline's metric creator.
 //   mode 0: live delivery
 //   mode 1: the consumers are stalled, the agent shuts down (chunks spilled to the queue directories), a second
 //           agent is started from the same configuration (ListBufferIDs -> initial pipelines) and must deliver
@@ -31,10 +32,11 @@ import (
 )
 
 type c06Delivery struct {
-	output   string   // name of the output whose consumer got the chunk
-	pipeKeys []string // key set of the pipeline whose consumer got the chunk
-	tag      string   // tag inside the chunk
-	keys     []string // key fields of the record
+	output   string       // name of the output whose consumer got the chunk
+	consumer *c06Consumer // the delivering pipeline's consumer (exact identity of the pipeline)
+	pipeKeys []string     // key_* label values of the pipeline whose consumer got the chunk (lossy since b1856f7)
+	tag      string       // tag inside the chunk
+	keys     []string     // key fields of the record
 	msg      int
 }
 
@@ -71,7 +73,7 @@ func (w *c06Consumer) run() {
 			if !ok {
 				return
 			}
-			w.env.record(w.output, w.keys, chunk)
+			w.env.record(w, chunk)
 			w.args.OnChunkConsumed(chunk)
 		case <-w.args.InputClosed.Channel():
 			return
@@ -79,7 +81,8 @@ func (w *c06Consumer) run() {
 	}
 }
 
-func (env *c06E2E) record(output string, pipeKeys []string, chunk base.LogChunk) {
+func (env *c06E2E) record(w *c06Consumer, chunk base.LogChunk) {
+	output, pipeKeys := w.output, w.keys
 	env.mu.Lock()
 	defer env.mu.Unlock()
 	var message forwardprotocol.Message
@@ -88,7 +91,7 @@ func (env *c06E2E) record(output string, pipeKeys []string, chunk base.LogChunk)
 		return
 	}
 	for _, e := range message.Entries {
-		d := c06Delivery{output: output, pipeKeys: pipeKeys, tag: message.Tag, msg: -1}
+		d := c06Delivery{output: output, consumer: w, pipeKeys: pipeKeys, tag: message.Tag, msg: -1}
 		for _, n := range env.names {
 			v, _ := e.Record[n].(string)
 			d.keys = append(d.keys, v)
@@ -294,6 +297,7 @@ func c06RunE2E(c *Case) (out string, fails []Fail) {
 	for oi, oname := range outputs {
 		restarted := mode >= 1
 		got := make([][]c06Delivery, len(tuples))
+		served := map[*c06Consumer]int{} // pipeline (by its consumer) -> first record it delivered
 		for _, d := range env.deliveries {
 			if d.output != oname {
 				continue
@@ -303,6 +307,13 @@ func c06RunE2E(c *Case) (out string, fails []Fail) {
 				continue
 			}
 			got[d.msg] = append(got[d.msg], d)
+			// one pipeline never delivers records of two key sets (decided by the pipeline's own handle, not by its labels)
+			if j, seen := served[d.consumer]; !seen {
+				served[d.consumer] = d.msg
+			} else if !c06EqTuple(tuples[j], tuples[d.msg]) {
+				fails = append(fails, Fail{"c06:pipeline-shared:" + c06PairClass(tuples[j], tuples[d.msg]),
+					fmt.Sprintf("records with keys %s and %s are delivered by the same pipeline (labels %s, tag %q)", c06Q(tuples[j]), c06Q(tuples[d.msg]), c06Q(d.pipeKeys), d.tag)})
+			}
 		}
 		for i, t := range tuples {
 			part := ""
@@ -325,9 +336,10 @@ func c06RunE2E(c *Case) (out string, fails []Fail) {
 				if !c06EqTuple(d.keys, t) {
 					fails = append(fails, Fail{"c06:e2e:record-changed", fmt.Sprintf("record %d: key fields %s delivered as %s", i, c06Q(t), c06Q(d.keys))})
 				}
-				if !c06EqTuple(d.pipeKeys, t) {
-					fails = append(fails, Fail{"c06:pipeline-shared:" + c06PairClass(d.pipeKeys, t),
-						fmt.Sprintf("record with keys %s is delivered by the pipeline of key set %s (tag %q)", c06Q(t), c06Q(d.pipeKeys), d.tag)})
+				if want := c06RefLabels(t); !c06EqTuple(d.pipeKeys, want) {
+					// the labels are the rendering of another key set (for valid UTF-8 values: another key set)
+					fails = append(fails, Fail{"c06:pipeline-shared:" + c06PairClass(d.pipeKeys, want),
+						fmt.Sprintf("record with keys %s is delivered by a pipeline with key labels %s, its own values give %s (tag %q)", c06Q(t), c06Q(d.pipeKeys), c06Q(want), d.tag)})
 				}
 				if refOK {
 					if want := c06RefExpand(tparts, t); want != d.tag {
